@@ -353,7 +353,7 @@ class World:
     def obj_str(self, interp, v, node, which):
         if self.is_exception_class(v.cls) and v.cls.builtin:
             return interp.fresh_str("excmsg")
-        if interp.repr_mode == "opaque":
+        if interp.repr_mode == "opaque" and v.cls.name != "ValueDate":      # (a date's text is a numeral the code computes with)
             r = interp.fresh_str("repr")
             r.opaque = True
             return r
@@ -1448,7 +1448,22 @@ def dt_key(d):
               + zi(f["minute"])) * 60 + zi(f["second"])) * 1000000 + zi(f["microsecond"]))
 
 
+STRF_NUMERAL = z3.Function("strftime_YmdHMS", z3.IntSort(), z3.StringSort())
+
+
 def strftime(it, d, fmt, n):
     if not is_strlike(fmt):
         it.guard(False, "TypeError", n, "strftime() argument 1 must be str")
+    if fmt == "%Y%m%d%H%M%S" and isinstance(d, Obj) and "year" in d.fields:
+        # assumed contract of CPython's strftime for this format: the decimal numeral of y*10^10 + m*10^8 + d*10^6 + H*10^4 + M*100 + S
+        f = d.fields
+        num = (((((zi(f["year"]) * 100 + zi(f["month"])) * 100 + zi(f["day"])) * 100 + zi(f["hour"])) * 100 + zi(f["minute"])) * 100 + zi(f["second"]))
+        r = STRF_NUMERAL(num)
+        w = it.world
+        if 10 not in w.INTPARSE:
+            w.INTPARSE[10] = (z3.Function("int_ok_10", z3.StringSort(), z3.BoolSort()), z3.Function("int_of_10", z3.StringSort(), z3.IntSort()))
+        okf, valf = w.INTPARSE[10]
+        # (stated through the int() model's own predicates: no string-theory reasoning needed downstream)
+        it.path.assume(z3.And(okf(r), valf(r) == num, num > 0, z3.Length(r) >= 5), check=False)
+        return SStr(r)
     return it.fresh_str("strftime")
